@@ -4,6 +4,7 @@ package main
 
 import (
 	"bytes"
+	"encoding/json"
 
 	"github.com/EdgeCast/vflow/netflow/v5"
 	"github.com/EdgeCast/vflow/netflow/v9"
@@ -67,6 +68,7 @@ func verifV9Reference(body []byte, i int, cache netflow9.MemCache) (out []byte, 
 }
 
 func verifV9Worker(c13 bool) {
+	verifAgentInMessage = true
 	size := 64
 	verifPoolSize = size
 	verifPoolBufs = nil
@@ -123,6 +125,12 @@ func verifWorkerChecks(c13, full bool, N int, decoded, publish []bool, want [][]
 			q := <-mq
 			if !c13 {
 				verifAssert(verifStrEq(string(q), string(want[i])), "C12: the published message is exactly what decoding this datagram on its own produces")
+				// (the reference above runs the same decoder in the same process; what must not
+				// depend on process-wide state is checked against the datagram's own source)
+				if verifAgentInMessage {
+					h := verifJSONParse(q)
+					verifAssert(verifJSONStr(h, "AgentID", verifExporter(i).IP.String()), "C12: the published message names the exporter its own datagram came from")
+				}
 			}
 		}
 	}
@@ -165,6 +173,7 @@ func verifV5Reference(body []byte, i int) (out []byte, decoded, publish bool) {
 }
 
 func verifV5Worker(c13 bool) {
+	verifAgentInMessage = true
 	size := 80
 	verifPoolSize = size
 	verifPoolBufs = nil
@@ -202,10 +211,14 @@ func VerifWorkerAccountingV5() { verifV5Worker(true) }
 
 // encoding/json cannot be executed (reflection): the stand-in encodes, AT CALL TIME, the
 // datagram's sequence number, agent address and the VLAN counters of its first counter sample.
+// calls made from a function named verifOrig... are not redirected by the directive above
+func verifOrigMarshal(v interface{}) ([]byte, error) { return json.Marshal(v) }
+
 func verifSFMarshal(v interface{}) ([]byte, error) {
 	d, ok := v.(*sflow.SFDatagram)
 	if !ok {
-		return []byte("other"), nil
+		// anything else (the string values of the IPFIX / v9 encoders): the library itself
+		return verifOrigMarshal(v)
 	}
 	w := &verifW{b: make([]byte, 64)}
 	w.u32(d.SequenceNo)
@@ -272,6 +285,7 @@ func verifSFReference(body []byte) (out []byte, decoded, publish bool) {
 }
 
 func verifSFWorker(c13 bool) {
+	verifAgentInMessage = false
 	size := 96
 	verifPoolSize = size
 	verifPoolBufs = nil
